@@ -1,30 +1,31 @@
 // Correspondence driver for C14 (serialisations round-trip).  Black box: public API only.
 //
-//   c14 gen <seed> <tier> <cases-out> <obs-out>   generate cases, run /repo on them
-//   c14 run <cases-in> <obs-out>                  re-run given cases (replay, corpus)
+//	c14 gen <seed> <tier> <cases-out> <obs-out>   generate cases, run /repo on them
+//	c14 run <cases-in> <obs-out>                  re-run given cases (replay, corpus)
 //
 // Integers are lower-case hex without leading zeros ("0" for zero); bytes are hex ("-" empty); text is the
 // hex of its bytes.  Case lines and observations:
-//   HP id d                 WritePrivateKeyToHex, then ReadPrivateKeyFromHex   -> ok <text> <ok D|err>
-//   HR id text              ReadPrivateKeyFromHex(text)                       -> ok D | err
-//   HQ id x y               WritePublicKeyToHex / ReadPublicKeyFromHex        -> ok <text> <ok X Y|err>
-//   HS id text              ReadPublicKeyFromHex(text)                        -> ok X Y | err
-//   CP id x y               Compress, then Decompress                         -> ok <bytes> <ok X Y|nil>
-//   CD id bytes             Decompress(bytes)                                 -> ok X Y | nil
-//   SG id r s               SignDigitToSignData, then SignDataToSignDigit     -> ok <der> <ok R S|err>
-//   SD id der               SignDataToSignDigit(der)                          -> ok R S | neg | err
-//   CM id data              CipherMarshal, then CipherUnmarshal               -> ok <der> <ok data|err> | err
-//   CU id der               CipherUnmarshal(der)                              -> ok data | err
-//   P8 id d x y c           MarshalSm2UnecryptedPrivateKey, ParsePKCS8UnecryptedPrivateKey -> ok <der> <ok D X Y|err>  (c=1: (x,y) = [d]G)
-//   PK id octets            ParsePKCS8UnecryptedPrivateKey on a PKCS#8 whose PrivateKey OCTET STRING is octets -> ok D | err
-//   PX id x y               MarshalSm2PublicKey / ParseSm2PublicKey, PEM wrappers -> ok X Y <pem ok 0/1>
-//   PM id d                 WritePrivateKeyToPem(nil) / ReadPrivateKeyFromPem(nil) and the PKCS8 functions -> ok D X Y
-//   PW id d pwd n           password-protected PEM with pwd, round trip, then n derived wrong passwords
-//                           -> ok <roundtrip 0/1> <wrong tried> <wrong rejected> <wrong accepted with the same key>
-//   LD id loader ci ki cj kj cdesc kdesc cdesc2 kdesc2   key-pair loaders on material ci/ki (and cj/kj) -> ok 0/1
-//   LP id loader certfile keyfile [certfile2 keyfile2]   loaders on composed PEM input; a file is a comma list of blocks
-//                           LABEL/content/ref (LABEL with _ for space; content: cert=<cdesc> p1rsa=<n> p8rsa=<n> p8ec=<cu:x:y>
-//                           p8sm2=<x:y> p8other sec1 enc junk; ref: how the driver rebuilds the bytes), "-" = empty file -> ok 0/1
+//
+//	HP id d                 WritePrivateKeyToHex, then ReadPrivateKeyFromHex   -> ok <text> <ok D|err>
+//	HR id text              ReadPrivateKeyFromHex(text)                       -> ok D | err
+//	HQ id x y               WritePublicKeyToHex / ReadPublicKeyFromHex        -> ok <text> <ok X Y|err>
+//	HS id text              ReadPublicKeyFromHex(text)                        -> ok X Y | err
+//	CP id x y               Compress, then Decompress                         -> ok <bytes> <ok X Y|nil>
+//	CD id bytes             Decompress(bytes)                                 -> ok X Y | nil
+//	SG id r s               SignDigitToSignData, then SignDataToSignDigit     -> ok <der> <ok R S|err>
+//	SD id der               SignDataToSignDigit(der)                          -> ok R S | neg | err
+//	CM id data              CipherMarshal, then CipherUnmarshal               -> ok <der> <ok data|err> | err
+//	CU id der               CipherUnmarshal(der)                              -> ok data | err
+//	P8 id d x y c           MarshalSm2UnecryptedPrivateKey, ParsePKCS8UnecryptedPrivateKey -> ok <der> <ok D X Y|err>  (c=1: (x,y) = [d]G)
+//	PK id octets            ParsePKCS8UnecryptedPrivateKey on a PKCS#8 whose PrivateKey OCTET STRING is octets -> ok D | err
+//	PX id x y               MarshalSm2PublicKey / ParseSm2PublicKey, PEM wrappers -> ok X Y <pem ok 0/1>
+//	PM id d                 WritePrivateKeyToPem(nil) / ReadPrivateKeyFromPem(nil) and the PKCS8 functions -> ok D X Y
+//	PW id d pwd n           password-protected PEM with pwd, round trip, then n derived wrong passwords
+//	                        -> ok <roundtrip 0/1> <wrong tried> <wrong rejected> <wrong accepted with the same key>
+//	LD id loader ci ki cj kj cdesc kdesc cdesc2 kdesc2   key-pair loaders on material ci/ki (and cj/kj) -> ok 0/1
+//	LP id loader certfile keyfile [certfile2 keyfile2]   loaders on composed PEM input; a file is a comma list of blocks
+//	                        LABEL/content/ref (LABEL with _ for space; content: cert=<cdesc> p1rsa=<n> p8rsa=<n> p8ec=<cu:x:y>
+//	                        p8sm2=<x:y> p8other sec1 enc junk; ref: how the driver rebuilds the bytes), "-" = empty file -> ok 0/1
 package main
 
 import (
@@ -69,8 +70,8 @@ func unInt(s string) *big.Int {
 	}
 	return x
 }
-func text(s string) string     { return hx.Hex([]byte(s)) }
-func unText(s string) string   { return string(hx.UnHex(s)) }
+func text(s string) string   { return hx.Hex([]byte(s)) }
+func unText(s string) string { return string(hx.UnHex(s)) }
 func keyOf(d *big.Int) *sm2.PrivateKey {
 	c := sm2.P256Sm2()
 	k := new(sm2.PrivateKey)
@@ -204,11 +205,11 @@ func buildMaterials() {
 		return m
 	}
 	materials = append(materials,
-		file("sm2_sign_cert.cer", "sm2_sign_key.pem", "sm2"), // 0
-		file("sm2_enc_cert.cer", "sm2_enc_key.pem", "sm2"),   // 1
-		file("sm2_auth_cert.cer", "sm2_auth_key.pem", "sm2"), // 2
-		file("rsa_sign.cer", "rsa_sign_key.pem", "rsa"),      // 3
-		file("rsa_auth_cert.cer", "rsa_auth_key.pem", "rsa"), // 4
+		file("sm2_sign_cert.cer", "sm2_sign_key.pem", "sm2"),        // 0
+		file("sm2_enc_cert.cer", "sm2_enc_key.pem", "sm2"),          // 1
+		file("sm2_auth_cert.cer", "sm2_auth_key.pem", "sm2"),        // 2
+		file("rsa_sign.cer", "rsa_sign_key.pem", "rsa"),             // 3
+		file("rsa_auth_cert.cer", "rsa_auth_key.pem", "rsa"),        // 4
 		sm2Material(r, new(big.Int).SetBytes(r.Bytes(31)), "c14-a"), // 5
 		sm2Material(r, big.NewInt(41105224), "c14-x-leading-zero"),  // 6: x has three leading zero bytes
 		sm2Material(r, big.NewInt(60000225), "c14-y-leading-zeros"), // 7: y has two leading zero bytes
@@ -306,6 +307,12 @@ func wrongPasswords(pwd []byte, n int) [][]byte {
 type sm2PrivASN struct {
 	Version    int
 	PrivateKey []byte
+}
+type sm2PrivFullASN struct {
+	Version       int
+	PrivateKey    []byte
+	NamedCurveOID asn1.ObjectIdentifier `asn1:"optional,explicit,tag:0"`
+	PublicKey     asn1.BitString        `asn1:"optional,explicit,tag:1"`
 }
 type pkcs8ASN struct {
 	Version    int
@@ -423,6 +430,51 @@ func runCase(line string) string {
 				return "err"
 			}
 			return "ok " + hexInt(k.D)
+		case "PS": // x509.ParseSm2PrivateKey called directly on the inner structure (bare, or with curve OID and public key)
+			oct := hx.UnHex(f[2])
+			var inner []byte
+			var err error
+			if f[3] == "1" {
+				pt := keyOf(big.NewInt(7))
+				inner, err = asn1.Marshal(sm2PrivFullASN{1, oct, asn1.ObjectIdentifier{1, 2, 156, 10197, 1, 301},
+					asn1.BitString{Bytes: elliptic.Marshal(pt.Curve, pt.X, pt.Y), BitLength: 65 * 8}})
+			} else {
+				inner, err = asn1.Marshal(sm2PrivASN{1, oct})
+			}
+			if err != nil {
+				return "BADCASE"
+			}
+			k, err := x509.ParseSm2PrivateKey(inner)
+			if err != nil {
+				return "err"
+			}
+			return "ok " + hexInt(k.D)
+		case "EA": // genuine ciphertexts: Encrypt / EncryptAsn1 with the same nonce stream, CipherMarshal / CipherUnmarshal, DecryptAsn1
+			k := keyOf(unInt(f[2]))
+			msg := hx.UnHex(f[3])
+			seed, _ := strconv.ParseUint(f[4], 10, 64)
+			raw, err := sm2.Encrypt(&k.PublicKey, msg, &detReader{hx.NewRng(seed)}, sm2.C1C3C2)
+			if err != nil {
+				return "err encrypt"
+			}
+			asn, err := sm2.EncryptAsn1(&k.PublicKey, msg, &detReader{hx.NewRng(seed)})
+			if err != nil {
+				return "err encryptasn1"
+			}
+			b2 := func(b bool) int {
+				if b {
+					return 1
+				}
+				return 0
+			}
+			m, e1 := sm2.CipherMarshal(append([]byte{}, raw...))
+			u, e2 := sm2.CipherUnmarshal(asn)
+			p1, e3 := sm2.DecryptAsn1(k, asn)
+			p2, e4 := k.DecryptAsn1(asn)
+			p3, e5 := sm2.Decrypt(k, u, sm2.C1C3C2)
+			asn2, e6 := k.PublicKey.EncryptAsn1(msg, &detReader{hx.NewRng(seed)})
+			return fmt.Sprintf("ok %s %s %d %d %d %d", hx.Hex(raw), hx.Hex(asn), b2(e1 == nil && bytes.Equal(m, asn)), b2(e2 == nil && bytes.Equal(u, raw)),
+				b2(e3 == nil && e4 == nil && e5 == nil && bytes.Equal(p1, msg) && bytes.Equal(p2, msg) && bytes.Equal(p3, msg)), b2(e6 == nil && bytes.Equal(asn2, asn)))
 		case "PX":
 			pub := pubOf(unInt(f[2]), unInt(f[3]))
 			der, err := x509.MarshalSm2PublicKey(pub)
@@ -482,6 +534,8 @@ func runCase(line string) string {
 				rt = 0
 			}
 			tried, rejected, same := 0, 0, 0
+			dtried, drejected := 0, 0
+			encDer, derr := x509.MarshalSm2PrivateKey(k, pwd)
 			for _, w := range wrongPasswords(pwd, n) {
 				tried++
 				back, err := x509.ReadPrivateKeyFromPem(p, w)
@@ -490,12 +544,28 @@ func runCase(line string) string {
 				} else if back.D.Cmp(k.D) == 0 {
 					same++
 				}
+				// the same wrong password against the DER entry points
+				if derr == nil {
+					dtried += 2
+					if _, err := x509.ParsePKCS8PrivateKey(encDer, w); err != nil {
+						drejected++
+					}
+					if _, err := x509.ParsePKCS8EcryptedPrivateKey(encDer, w); err != nil {
+						drejected++
+					}
+				}
 			}
 			tried++ // nil password on a protected key
 			if _, err := x509.ReadPrivateKeyFromPem(p, nil); err != nil {
 				rejected++
 			}
-			return fmt.Sprintf("ok %d %d %d %d", rt, tried, rejected, same)
+			if derr == nil { // nil password: ParsePKCS8PrivateKey takes the unencrypted path and must refuse the encrypted form
+				dtried++
+				if _, err := x509.ParsePKCS8PrivateKey(encDer, nil); err != nil {
+					drejected++
+				}
+			}
+			return fmt.Sprintf("ok %d %d %d %d %d %d", rt, tried, rejected, same, dtried, drejected)
 		case "LD":
 			return runLoader(f)
 		case "LP":
@@ -879,6 +949,20 @@ func main() {
 		}
 		emit("CM", hx.Hex(data))
 	}
+	// genuine ciphertexts (sm2.Encrypt on real keys, deterministic nonce streams): through CipherMarshal / CipherUnmarshal against
+	// the model (CM), and through EncryptAsn1 / DecryptAsn1 (EA); keys whose C1 has short coordinates come by chance only
+	for i := 0; i < 24*scale; i++ {
+		k := keyOf(genD(r, i+3))
+		msg := r.Bytes(r.Pick([]int{0, 1, 15, 16, 17, 32, 100, 127, 128, 300, 1000}))
+		if len(msg) == 0 {
+			msg = []byte{byte(i)} // Encrypt of an empty message is a C02 matter
+		}
+		sd := r.U64() % 1000000
+		if raw, err := sm2.Encrypt(&k.PublicKey, msg, &detReader{hx.NewRng(sd)}, sm2.C1C3C2); err == nil {
+			emit("CM", hx.Hex(raw))
+		}
+		emit("EA", hexInt(k.D), hx.Hex(msg), strconv.FormatUint(sd, 10))
+	}
 	type cipherASN struct {
 		X, Y *big.Int
 		H, C []byte
@@ -940,6 +1024,7 @@ func main() {
 			oct = append([]byte{0, 0}, d.Bytes()...)
 		}
 		emit("PK", hx.Hex(oct))
+		emit("PS", hx.Hex(oct), strconv.Itoa(i%2))
 	}
 	// ---- passwords
 	pw := [][]byte{{}, []byte("a"), []byte("Passw0rd-C14"), []byte("pässwörd-密码-🔑"), bytes.Repeat([]byte("0123456789abcdeF"), 64), r.Bytes(32), []byte("trailing space ")}
@@ -951,9 +1036,6 @@ func main() {
 	for _, ld := range []string{"X509KeyPair", "GMX509KeyPairsSingle", "LoadX509KeyPair", "LoadGMX509KeyPair"} {
 		for ci := 0; ci < nm; ci++ {
 			for ki := 0; ki < nm; ki++ {
-				if strings.HasPrefix(ld, "Load") && tier != "thorough" && (ci+ki)%3 != 0 && ci != ki {
-					continue
-				}
 				emit("LD", ld, strconv.Itoa(ci), strconv.Itoa(ki), "-", "-", materials[ci].cdesc, materials[ki].kdesc, "-", "-")
 			}
 		}
@@ -980,10 +1062,6 @@ func main() {
 						if match < 2 && !must && r.Intn(40) != 0 {
 							continue
 						}
-						if ld == "LoadGMX509KeyPairs" && tier != "thorough" && cnt%4 != 0 && !must {
-							cnt++
-							continue
-						}
 						cnt++
 						emit("LD", ld, strconv.Itoa(a), strconv.Itoa(b), strconv.Itoa(c), strconv.Itoa(d),
 							materials[a].cdesc, materials[b].kdesc, materials[c].cdesc, materials[d].kdesc)
@@ -994,29 +1072,31 @@ func main() {
 	}
 	// ---- loaders on composed PEM input: which block is used
 	cb := func(i int) string { return "CERTIFICATE/cert=" + materials[i].cdesc + "/c" + strconv.Itoa(i) }
-	kb := func(label string, i int) string { return label + "/" + materials[i].kcontent() + "/k" + strconv.Itoa(i) }
+	kb := func(label string, i int) string {
+		return label + "/" + materials[i].kcontent() + "/k" + strconv.Itoa(i)
+	}
 	junk := func(label string) string { return label + "/junk/j" }
 	type pf struct{ c, k string }
 	files := []pf{
 		{cb(5), kb("PRIVATE_KEY", 5)},
-		{cb(5) + "," + cb(0), kb("PRIVATE_KEY", 5)},                                     // leaf then chain
-		{cb(0) + "," + cb(5), kb("PRIVATE_KEY", 5)},                                     // leaf is not first
+		{cb(5) + "," + cb(0), kb("PRIVATE_KEY", 5)},                                                  // leaf then chain
+		{cb(0) + "," + cb(5), kb("PRIVATE_KEY", 5)},                                                  // leaf is not first
 		{junk("EC_PARAMETERS") + "," + cb(5), junk("EC_PARAMETERS") + "," + kb("EC_PRIVATE_KEY", 5)}, // PKCS#8 SM2 under another label
-		{cb(8), "EC_PRIVATE_KEY/sec1/s8"},                                               // SEC 1: no parser
+		{cb(8), "EC_PRIVATE_KEY/sec1/s8"},                                                            // SEC 1: no parser
 		{cb(8), kb("PRIVATE_KEY", 8)},
-		{cb(5), "ENCRYPTED_PRIVATE_KEY/enc/e5," + kb("PRIVATE_KEY", 5)},                  // first key block decides
+		{cb(5), "ENCRYPTED_PRIVATE_KEY/enc/e5," + kb("PRIVATE_KEY", 5)}, // first key block decides
 		{cb(5), "ENCRYPTED_PRIVATE_KEY/enc/e5"},
 		{cb(5), kb("PRIVATE_KEY", 5) + "," + kb("PRIVATE_KEY", 0)},
 		{cb(0), kb("PRIVATE_KEY", 5) + "," + kb("PRIVATE_KEY", 0)},
-		{cb(5), cb(5)},                                                                  // certificate given as key
-		{kb("PRIVATE_KEY", 5), kb("PRIVATE_KEY", 5)},                                    // key given as certificate
+		{cb(5), cb(5)}, // certificate given as key
+		{kb("PRIVATE_KEY", 5), kb("PRIVATE_KEY", 5)}, // key given as certificate
 		{"-", kb("PRIVATE_KEY", 5)}, {cb(5), "-"},
 		{cb(5), "PRIVATE_KEY/p8other/ed"},
 		{cb(3), kb("RSA_PRIVATE_KEY", 3)}, {cb(3), kb("PRIVATE_KEY", 4)},
 		{cb(5), junk("PUBLIC_KEY") + "," + kb("PRIVATE_KEY", 5)},
-		{cb(5), kb("PUBLIC_KEY", 5)},                                                    // right bytes, label not a private key
+		{cb(5), kb("PUBLIC_KEY", 5)}, // right bytes, label not a private key
 		{cb(6), kb("SM2_PRIVATE_KEY", 6)}, {cb(7), kb("PRIVATE_KEY", 12)}, {cb(5), kb("PRIVATE_KEY", 12)},
-		{junk("CERTIFICATE") + "," + cb(5), kb("PRIVATE_KEY", 5)},                        // first CERTIFICATE block does not parse
+		{junk("CERTIFICATE") + "," + cb(5), kb("PRIVATE_KEY", 5)}, // first CERTIFICATE block does not parse
 	}
 	for _, ld := range []string{"X509KeyPair", "GMX509KeyPairsSingle"} {
 		for _, x := range files {
